@@ -58,21 +58,24 @@ theorem utf8_units_partition (bs : List Nat) :
     transcribes** (regenerated on this run, statement by statement): `ReadRune`; stop the timer; the
     raw-byte fallback under exactly `r == ReplacementChar && size == 1` (the same flag the model's
     `readRune` reads from `Gen.ParserTable`); error ⇒ `eof`; — the builder, the look-ahead loop
-    `for p.r.Buffered() > 0 { ReadRune; WriteRune; FirstGraphemeClusterInString; if rest != "" {
-    UnreadRune; break } }` (no fallback inside: F102d), the width, the `Print`; — one channel send.
-    No statement outside the vocabulary. -/
+    `for p.r.Buffered() > 0 { ReadRune; if invalid byte { UnreadRune; break }; WriteRune;
+    FirstGraphemeClusterInString; if rest != "" { UnreadRune; break } }` (F102d repaired: an invalid
+    byte is left to `readRune`; the flag the model's `printLoop` reads), the width, the `Print`; —
+    one channel send.  No statement outside the vocabulary. -/
 theorem reader_skeleton_recognised :
     Gen.ParserReader.readRuneBody = Model.ParserReaderSk.handReadRune Gen.ParserTable.fallbackOnlyInvalid ∧
     Gen.ParserReader.printBody = Model.ParserReaderSk.handPrint ∧
     Gen.ParserReader.emitBody = Model.ParserReaderSk.handEmit ∧
-    Gen.ParserReader.unrecognised = [] ∧ Gen.ParserTable.fallbackOnlyInvalid = true := by decide
+    Gen.ParserReader.unrecognised = [] ∧ Gen.ParserTable.fallbackOnlyInvalid = true ∧
+    Gen.ParserTable.lookaheadStopsAtInvalid = true := by decide
 
 /-! ## The reads disappear -/
 
 /-- **Model of the reading side = automaton over the decoded stream**, for every byte stream,
     every way of splitting it into reads (any byte offsets: inside a UTF-8 sequence, inside an
     escape sequence, empty reads) and every cluster oracle that respects the stream (never joins a
-    C0 control or an invalid byte to what precedes it): the items delivered — compared modulo
+    C0 control to what precedes it — uniseg GB4/GB5; nothing is assumed about invalid bytes since
+    F102d is repaired): the items delivered — compared modulo
     merging/splitting adjacent Prints, i.e. after `flat` — are exactly what the automaton delivers
     when fed the runes of the stream one by one (valid scalars, raw invalid bytes), then end of
     input.  Escape sequences, control strings and text alike. -/
@@ -99,58 +102,65 @@ example : Respects (fun p => if p = 1 then 3 else 1) 0
     (units [0x61, 0xF0, 0x9F, 0x91, 0xA9, 0xE2, 0x80, 0x8D, 0xF0, 0x9F, 0x91, 0xA9, 0x1B, 0x5B, 0x6D]) := by decide
 
 /-- **Splitting independence, every byte stream, arbitrary byte-offset splits.**  Two ways of
-    splitting the same bytes into reads, under any two respectful cluster oracles, deliver the same
-    items once adjacent Prints are merged (`flat`). -/
-theorem chunk_independent_partial (cl1 cl2 : Nat → Nat) (c1 c2 : List (List UInt8))
+    splitting the same bytes into reads, under any two cluster oracles that never join a C0 control,
+    deliver the same items once adjacent Prints are merged (`flat`).  (Round 2: `…_partial`, the
+    oracles also had to keep off invalid bytes — F102d, repaired.) -/
+theorem chunk_independent (cl1 cl2 : Nat → Nat) (c1 c2 : List (List UInt8))
     (hsame : streamOf c1 = streamOf c2)
     (h1 : Respects cl1 0 (units (streamOf c1))) (h2 : Respects cl2 0 (units (streamOf c2))) :
     flat (runChunks handTable cl1 (natChunks c1)) = flat (runChunks handTable cl2 (natChunks c2)) := by
   rw [reads_disappear cl1 c1 h1, reads_disappear cl2 c2 h2, hsame]
 
-/-- The full statement (no hypothesis on the oracle).  False of the code: `Witness.F102.F102d_split_dependent`. -/
+-- an oracle that joins an invalid byte to the Prepend character before it (the F102d witness) is admitted now
+example : Respects (fun p => if p = 0 then 2 else 1) 0 (units [0xD8, 0x80, 0xFF]) := by decide
+
+/-- The statement with no hypothesis on the oracle at all.  Not a statement about the code: an
+    "oracle" that joins an ESC to the letter before it (uniseg never does: GB4/GB5) swallows the ESC
+    into the Print — `Witness.F102.chunk_independent_needs_c0_oracle`. -/
 def chunk_independent_full : Prop :=
   ∀ (cl : Nat → Nat) (c1 c2 : List (List UInt8)), streamOf c1 = streamOf c2 →
     flat (runChunks handTable cl (natChunks c1)) = flat (runChunks handTable cl (natChunks c2))
 
-/-- **Text conservation, every byte ≥ 0x20** (printable ASCII, DEL, every valid UTF-8 scalar, every
-    raw invalid byte): for every split into reads and every respectful oracle the parser delivers
-    only Prints and the end marker, and the runes of the Prints, in order, are exactly the decoded
-    stream — each valid scalar once, each invalid byte as itself, nothing lost, duplicated, altered
-    or reordered. -/
-theorem text_conserved_partial (cl : Nat → Nat) (chunks : List (List UInt8))
-    (htext : ∀ b ∈ streamOf chunks, 0x20 ≤ b) (hR : Respects cl 0 (units (streamOf chunks))) :
-    flat (runChunks handTable cl (natChunks chunks)) = (decodeRunes (streamOf chunks)).map .print ++ [.eof] := by
-  rw [reads_disappear cl chunks hR]
-  apply runRunes_text PState.init rfl rfl
-  intro r hr
-  obtain ⟨u, hu, rfl⟩ := List.mem_map.mp hr
-  exact units_raw_ge _ htext u hu
-
-/-- The full statement (no hypothesis on the oracle).  False of the code: `Witness.F102.F102d_text_altered`
-    (an invalid byte that the oracle joins to the preceding rune is delivered as U+FFFD). -/
-def text_conserved_full : Prop :=
-  ∀ (cl : Nat → Nat) (chunks : List (List UInt8)), (∀ b ∈ streamOf chunks, 0x20 ≤ b) →
-    flat (runChunks handTable cl (natChunks chunks)) = (decodeRunes (streamOf chunks)).map .print ++ [.eof]
-
-
-/-- **Each Print is one grapheme cluster — unless cut by a read boundary.**  For a stream of bytes
-    ≥ 0x20, every split into reads and **any** oracle (no hypothesis at all; in particular any
-    `cluster` with `0 < cluster l ≤ l.length`): the items are Prints then `EOF{}`; the Prints are
-    consecutive, non-empty blocks of the units of the stream, in order, covering it exactly (nothing
-    lost, duplicated or reordered); a block starting at byte offset `pos` has at most
-    `max 1 (cl pos)` units, and fewer only if it ends exactly at a read boundary.  What a Print
-    carries is `render block`: the first unit as `readRune` reads it (raw-byte fallback), the others
-    as the look-ahead's `ReadRune` reads them — U+FFFD for an invalid byte: that, and only that, is
-    the alteration of finding F102d. -/
+/-- **Each Print is one grapheme cluster — unless cut by a read boundary or an invalid byte.**  For a
+    stream of bytes ≥ 0x20, every split into reads and **any** oracle (no hypothesis at all; in
+    particular any `cluster` with `0 < cluster l ≤ l.length`): the items are Prints then `EOF{}`; the
+    Prints are consecutive, non-empty blocks of the units of the stream, in order, covering it exactly
+    (nothing lost, duplicated or reordered); only the first unit of a block can be an invalid byte;
+    a block starting at byte offset `pos` has at most `max 1 (cl pos)` units, and fewer only if it
+    ends exactly at a read boundary or in front of an invalid byte (which starts the next block).
+    What a Print carries is `render block` = every unit as its own rune (valid scalar, or the raw
+    invalid byte): nothing is altered. -/
 theorem text_blocks (cl : Nat → Nat) (chunks : List (List UInt8)) (htext : ∀ b ∈ streamOf chunks, 0x20 ≤ b) :
     ∃ blocks : List (List U),
       runChunks handTable cl (natChunks chunks) = blocks.map (fun b => Item.print (render b)) ++ [.seq .eof] ∧
       blocks.flatten = units (streamOf chunks) ∧ BlocksOk cl (IsCut (natChunks chunks)) 0 blocks :=
   runChunks_blocks cl (natChunks chunks) htext
 
+/-- **Text conservation, every byte ≥ 0x20, any oracle** (printable ASCII, DEL, every valid UTF-8
+    scalar, every raw invalid byte): for every split into reads and whatever the cluster oracle says,
+    the parser delivers only Prints and the end marker, and the runes of the Prints, in order, are
+    exactly the decoded stream — each valid scalar once, each invalid byte as itself, nothing lost,
+    duplicated, altered or reordered.  (Round 2: `text_conserved_full`, false because of F102d;
+    `text_conserved_partial` needed an oracle keeping off invalid bytes.) -/
+theorem text_conserved (cl : Nat → Nat) (chunks : List (List UInt8))
+    (htext : ∀ b ∈ streamOf chunks, 0x20 ≤ b) :
+    flat (runChunks handTable cl (natChunks chunks)) = (decodeRunes (streamOf chunks)).map .print ++ [.eof] := by
+  obtain ⟨blocks, h1, h2, _⟩ := text_blocks cl chunks htext
+  rw [h1, decodeRunes, ← h2]
+  exact flat_blocks blocks
+
+/-- The round-2 statement (a respectful oracle), kept: a special case of `text_conserved`. -/
+theorem text_conserved_partial (cl : Nat → Nat) (chunks : List (List UInt8))
+    (htext : ∀ b ∈ streamOf chunks, 0x20 ≤ b) (_hR : Respects cl 0 (units (streamOf chunks))) :
+    flat (runChunks handTable cl (natChunks chunks)) = (decodeRunes (streamOf chunks)).map .print ++ [.eof] :=
+  text_conserved cl chunks htext
+
 -- the block structure on a concrete stream: "e" + U+0301 split inside the combining mark, oracle joining them
 example : runChunks handTable (fun p => if p = 0 then 2 else 1) (natChunks [[0x65, 0xCC], [0x81, 0x41]]) =
     [.print [0x65, 0x301], .print [0x41], .seq .eof] := by decide
+-- the F102d stream: the invalid byte FF after the Prepend character U+0600, joined by the oracle, is its own Print
+example : runChunks handTable (fun p => if p = 0 then 2 else 1) (natChunks [[0xD8, 0x80, 0xFF]]) =
+    [.print [0x600], .print [0xFF], .seq .eof] := by decide
 -- … and cut by the read boundary when the mark arrives in the next read
 example : runChunks handTable (fun p => if p = 0 then 2 else 1) (natChunks [[0x65], [0xCC, 0x81, 0x41]]) =
     [.print [0x65], .print [0x301], .print [0x41], .seq .eof] := by decide
